@@ -125,7 +125,7 @@ pub fn template_programs() -> Vec<(String, Flags)> {
     }
     // class strings (v) in the same positions
     let strs = ["[\\q{ab|abc}]", "[\\q{ab|a}]", "[\\q{aé|a}]", "[\\q{kK|k}]", "[\\q{abcdefghijklmnopqr|ab}]", "\\p{Emoji_Keycap_Sequence}"];
-    for sk in ["(?<={L}{I})!", "(?<={I}{L})!", "{L}{I}!", "(?:{L})+{I}", "({L})\\1", "(?<=({L}))\\1?", "{L}(c?)", "(?<!{L})!"] {
+    for sk in ["(?<={L}{I})!", "(?<={I}{L})!", "{L}{I}!", "(?:{L})+{I}", "({L})\\1", "(?<=({L}))\\1?", "{L}(c?)", "(?<!{L})!", "(?-i:{L}){I}!", "(?i:{L}){I}!", "(?<=(?-i:{L}))!"] {
         for l in strs {
             for i in ["(?=!)", "(?<=b)", "(?:)", "c?"] {
                 let p = sk.replace("{L}", l).replace("{I}", i);
@@ -326,9 +326,9 @@ pub fn haystacks(p: &Program, rng: &mut Rng, budget: usize, n_long: usize, ascii
         let mut lits: Vec<&str> = TEMPLATE_HAY_LITS.iter().copied().filter(|l| pat.contains(l)).collect();
         lits.sort_by_key(|l| std::cmp::Reverse(l.len()));
         if let Some(best) = lits.first() {
-            let best = best.to_string();
-            let rank = |h: &String| if h.contains(&best) { 0 } else { 1 };
-            v.sort_by_key(rank);
+            // (ignoring case, shortest first: "ab!" and "AB!" both come early)
+            let best = best.to_lowercase();
+            v.sort_by_key(|h: &String| (if h.to_lowercase().contains(&best) { 0 } else { 1 }, h.len()));
         }
         if ascii_only {
             v.retain(|s| s.is_ascii());
@@ -426,4 +426,50 @@ pub fn thin_starts(starts: Vec<usize>) -> Vec<usize> {
     keep.sort_unstable();
     keep.dedup();
     keep
+}
+
+/// Patterns with numbers at every width at which a parser could truncate, saturate or overflow:
+/// hex escapes, decimal escapes / backreferences, and (for completeness) counts.
+pub fn integer_width_patterns() -> Vec<String> {
+    let hex = ["FFFF", "10000", "10FFFF", "110000", "7FFFFFFF", "80000000", "FFFFFFFF", "100000000", "100000041", "FFFFFFFFF", "7FFFFFFFFFFFFFFF", "FFFFFFFFFFFFFFFF", "10000000000000000", "10000000000000041", "0000000000000000000041", "00000000000000000000000000000000000000041"];
+    let dec = ["1", "2", "9", "10", "65535", "65536", "2147483648", "4294967295", "4294967296", "4294967297", "4294967298", "18446744073709551615", "18446744073709551616", "18446744073709551617", "340282366920938463463374607431768211457"];
+    let mut v = Vec::new();
+    for h in hex {
+        for t in ["\\u{H}", "[\\u{H}]", "[a-\\u{H}]", "[\\u{H}-\\u{H}]", "(?<\\u{H}>x)", "(?<a\\u{H}>x)", "\\k<\\u{H}>(?<a>x)", "\\u{H}+?"] {
+            v.push(t.replace("H", h));
+        }
+    }
+    for d in dec {
+        for t in ["(a)\\D", "\\D(a)", "(a)(b)\\D", "[\\D]", "(?<n>a)\\k<n>\\D", "(a)\\D{2}", "(?<=(a)\\D)b", "(a){D}\\1", "\\0D"] {
+            v.push(t.replace("D", d));
+        }
+    }
+    v
+}
+
+/// Every arrangement of up to three capture groups (unnamed / named) in one concatenation, placed
+/// in contexts that are emitted in the other direction or evaluated separately.
+pub fn group_arrangement_patterns() -> Vec<String> {
+    let groups = ["(a)", "(?<n>a)", "(?<m>b)", "(?:c)"];
+    let mut seqs: Vec<String> = Vec::new();
+    for a in groups {
+        seqs.push(a.to_string());
+        for b in groups {
+            seqs.push(format!("{}{}", a, b));
+            for c in groups {
+                seqs.push(format!("{}{}{}", a, b, c));
+            }
+        }
+    }
+    let mut v = Vec::new();
+    for s in &seqs {
+        // a name may be declared once per alternative only
+        if s.matches("(?<n>").count() > 1 || s.matches("(?<m>").count() > 1 {
+            continue;
+        }
+        for ctx in ["{}", "(?<={})c", "(?<!{})c", "(?={})a", "(?<=x(?<={}))", "(?<=(?={})a)", "(?:{})+", "(?<={}|x)c", "(?<=({}))\\1"] {
+            v.push(ctx.replace("{}", s));
+        }
+    }
+    v
 }
